@@ -128,6 +128,7 @@ type dumper struct {
 	b       strings.Builder
 	visited map[uintptr]bool
 	nodeRef func(pipeline.Node) (string, bool) // how a reference to another pipeline node is printed (false: not a node of the pipeline)
+	skip    map[string]bool                    // exported struct fields left out of the dump (argsOnly view of InfluxQL function nodes)
 }
 
 func (d *dumper) value(v reflect.Value, tagged bool) {
@@ -193,9 +194,9 @@ func (d *dumper) value(v reflect.Value, tagged bool) {
 		var kvs []kv
 		it := v.MapRange()
 		for it.Next() {
-			kd := &dumper{visited: d.visited, nodeRef: d.nodeRef}
+			kd := &dumper{visited: d.visited, nodeRef: d.nodeRef, skip: d.skip}
 			kd.value(it.Key(), false)
-			vd := &dumper{visited: d.visited, nodeRef: d.nodeRef}
+			vd := &dumper{visited: d.visited, nodeRef: d.nodeRef, skip: d.skip}
 			vd.value(it.Value(), false)
 			kvs = append(kvs, kv{kd.b.String(), vd.b.String()})
 		}
@@ -266,6 +267,9 @@ func (d *dumper) fields(v reflect.Value) {
 		if fv.Kind() == reflect.Func {
 			continue
 		}
+		if d.skip[f.Name] {
+			continue
+		}
 		d.b.WriteString(f.Name + "=")
 		d.value(fv, false)
 		d.b.WriteString(" ")
@@ -277,8 +281,25 @@ func isNoOp(n pipeline.Node) bool {
 	return ok
 }
 
-func nodeProps(n pipeline.Node, ref func(pipeline.Node) (string, bool)) string {
+// hasCallParameters: an InfluxQL function node whose call takes parameters besides the field
+// (percentile, top/bottom, movingAverage, elapsed, holtWinters): the parameters are kept twice, as
+// literals in the exported Args list and inside the closures of its reducers.
+func hasCallParameters(n pipeline.Node) bool {
+	q, ok := n.(*pipeline.InfluxQLNode)
+	return ok && len(q.Args) > 0
+}
+
+// nodeProps dumps a node. argsOnly: of an InfluxQL function node with call parameters only what the
+// pipeline itself holds as data is dumped (type, edges, Method, Field, As, PointTimes and the Args
+// list with the dynamic type of every argument); the copies of the parameters inside the reducers
+// (the reducer probe, ReduceCreater.TopBottomCallInfo) are left out. That is the view under which
+// the pipeline JSON law is checked while defect class J8 (reducers rebuilt with zero parameters) is open.
+func nodeProps(n pipeline.Node, ref func(pipeline.Node) (string, bool), argsOnly bool) string {
 	d := &dumper{visited: map[uintptr]bool{}, nodeRef: ref}
+	argsOnly = argsOnly && hasCallParameters(n)
+	if argsOnly {
+		d.skip = map[string]bool{"TopBottomCallInfo": true}
+	}
 	rv := reflect.ValueOf(n)
 	if rv.Kind() == reflect.Ptr && !rv.IsNil() {
 		d.visited[rv.Pointer()] = true
@@ -286,7 +307,7 @@ func nodeProps(n pipeline.Node, ref func(pipeline.Node) (string, bool)) string {
 	}
 	d.b.WriteString(fmt.Sprintf("%T wants=%v provides=%v quiet=%v ", n, n.Wants(), n.Provides(), n.IsQuiet()))
 	d.value(rv, false)
-	if q, ok := n.(*pipeline.InfluxQLNode); ok {
+	if q, ok := n.(*pipeline.InfluxQLNode); ok && !argsOnly {
 		d.b.WriteString(" Probe=" + reducerProbe(q))
 	}
 	return d.b.String()
@@ -296,6 +317,7 @@ func nodeProps(n pipeline.Node, ref func(pipeline.Node) (string, bool)) string {
 type Fingerprint struct {
 	Strict  string // DOT + pipeline JSON + per-node dump in walk order (names and ids included)
 	Canon   string // id-independent: multiset of node signatures (type, properties, ordered parent signatures)
+	CanonA  string // Canon with InfluxQL function nodes that have call parameters dumped argsOnly (see nodeProps); == Canon if there is no such node
 	Nodes   int
 	Kinds   []string
 	Mutated string // non-empty: json.Marshal(pipeline) changed the pipeline's own nodes (first difference of the dumps)
@@ -363,7 +385,7 @@ func fingerprint(p *pipeline.Pipeline) (fp Fingerprint) {
 					return "", false // e.g. an alert handler (its back pointer is nil after Unmarshal)
 				}
 				return o.Name(), true
-			}))
+			}, false))
 			db.WriteString("\n")
 		}
 		return db.String()
@@ -382,44 +404,54 @@ func fingerprint(p *pipeline.Pipeline) (fp Fingerprint) {
 		}
 	}()
 
-	sig := map[pipeline.Node]string{}
-	var sigOf func(n pipeline.Node) string
-	busy := map[pipeline.Node]bool{}
-	sigOf = func(n pipeline.Node) string {
-		if s, ok := sig[n]; ok {
+	canon := func(argsOnly bool) string {
+		sig := map[pipeline.Node]string{}
+		var sigOf func(n pipeline.Node) string
+		busy := map[pipeline.Node]bool{}
+		sigOf = func(n pipeline.Node) string {
+			if s, ok := sig[n]; ok {
+				return s
+			}
+			if busy[n] {
+				return "<cycle>"
+			}
+			busy[n] = true
+			var ps []string
+			for _, q := range n.Parents() {
+				ps = append(ps, short(sigOf(resolve(q))))
+			}
+			if _, ok := n.(*pipeline.UnionNode); ok {
+				sort.Strings(ps) // a union is a pass-through of all its parents: their order carries no meaning
+			}
+			s := nodeProps(n, func(o pipeline.Node) (string, bool) {
+				o = resolve(o)
+				if !isNode[o] {
+					return "", false
+				}
+				return short(sigOf(o)), true
+			}, argsOnly) + " <- [" + strings.Join(ps, " ") + "]"
+			busy[n] = false
+			sig[n] = s
 			return s
 		}
-		if busy[n] {
-			return "<cycle>"
-		}
-		busy[n] = true
-		var ps []string
-		for _, q := range n.Parents() {
-			ps = append(ps, short(sigOf(resolve(q))))
-		}
-		if _, ok := n.(*pipeline.UnionNode); ok {
-			sort.Strings(ps) // a union is a pass-through of all its parents: their order carries no meaning
-		}
-		s := nodeProps(n, func(o pipeline.Node) (string, bool) {
-			o = resolve(o)
-			if !isNode[o] {
-				return "", false
+		var all []string
+		for _, n := range nodes {
+			if isNoOp(n) {
+				continue
 			}
-			return short(sigOf(o)), true
-		}) + " <- [" + strings.Join(ps, " ") + "]"
-		busy[n] = false
-		sig[n] = s
-		return s
-	}
-	var all []string
-	for _, n := range nodes {
-		if isNoOp(n) {
-			continue
+			all = append(all, short(sigOf(n))+" = "+sigOf(n))
 		}
-		all = append(all, short(sigOf(n))+" = "+sigOf(n))
+		sort.Strings(all)
+		return strings.Join(all, "\n")
 	}
-	sort.Strings(all)
-	fp.Canon = strings.Join(all, "\n")
+	fp.Canon = canon(false)
+	fp.CanonA = fp.Canon
+	for _, n := range nodes {
+		if hasCallParameters(n) {
+			fp.CanonA = canon(true)
+			break
+		}
+	}
 	return fp
 }
 
